@@ -25,10 +25,12 @@ DOCS = {
     "ldReject": '{"@context": 5, "@id": "http://example.org/n1"}',
     "ldPanic": corpus.LD_PANIC_DOCS[0],
     # not JSON, several read buffers long, the error is in its first bytes (a RAML source passed by mistake)
+    # a complete JSON value followed by another one (whatever the library makes of it, it makes the same of it everywhere)
+    "passThenMore": json.dumps([n(1, p="x", q="ok")]) + "\n{\"extra\": true}\n",
     "notJsonLong": "#%RAML 1.0\ntitle: passed by mistake\n" + "".join("/resource%d:\n  get:\n    description: not JSON-LD at all\n" % i for i in range(60)),
 }
 DCLASS = {"pass": "ok", "fail1": "ok", "fail3": "ok", "failNested": "ok", "noNodes": "okNoNodes",
-          "notJson": "notJson", "ldReject": "ldReject", "ldPanic": "ldReject", "notJsonLong": "notJson"}
+          "notJson": "notJson", "ldReject": "ldReject", "ldPanic": "ldReject", "notJsonLong": "notJson", "passThenMore": "unknown"}
 LEXICAL_PROFILE = None
 
 
@@ -59,7 +61,7 @@ def run_(tier):
     maxlen = 3 if tier == "quick" else 5
     kinds = sorted(k for k in DOCS if k != "notJson")      # the long non-JSON text stands for the class
     if tier == "quick":
-        kinds = ["fail1", "fail3", "ldPanic", "noNodes", "notJsonLong", "pass"]
+        kinds = ["fail1", "fail3", "ldPanic", "noNodes", "notJsonLong", "pass", "passThenMore"]
     cfg = ("INIT HInit\nNEXT HNext\nINVARIANT Emit\nCONSTANTS\n  DocKinds = {%s}\n  ProfKinds = {\"flat\", \"nested\"}\n  MaxLen = %d\n"
            % (", ".join('"%s"' % k for k in kinds), maxlen))
     gen = vlib.run_tlc("ACVHist", "ACVHist", cfg, workers=4, timeout=300)
@@ -227,7 +229,7 @@ def fresh_process_references(profs, kinds):
     jobs = []
     for pk, ptext in sorted(profs.items()):
         for k in kinds:
-            for cn in ("", "alt", "altLex", "altRep", "noDate"):
+            for cn in ("", "alt", "altLex", "altRep", "noDate", "emptyIris", "emptyLex"):
                 jobs.append((pk, ptext, k, cn))
 
     def one(j):
